@@ -892,6 +892,116 @@ def mergeOp (mc : FilterOracle) (t : Table) (s : Sel) (req : MergeReq) : MergeRe
       let selSnap := t.parts.filter fun p => sel.any fun q => q.ident == p.ident
       hotMerge mc t selSnap req
 
+/-! ## 5b. reading a part by trace id (`part_iter.go`) -/
+
+/-- `sort.Search(n, f)` by its contract: the smallest index in `[0, n)` at which `f` holds, `n` if
+    none (Go's standard library binary search, trusted). -/
+def sortSearch {α : Type} (l : List α) (f : α → Bool) : Nat := l.findIdx f
+
+/-- `searchPBM` over the first trace ids of the primary blocks: the index at which reading
+    starts, or a panic (`none`). Trace ids are numbers here (the driver renders them zero padded). -/
+def searchPBM (ids : List Nat) (tid : Nat) : Option Nat :=
+  match ids with
+  | [] => none
+  | first :: _ =>
+    if tid < first then none
+    else if tid = first then some 0
+    else
+      let n := sortSearch ids (fun x => decide (tid ≤ x))
+      if n = 0 then none else some (n - 1)
+
+/-- a physical block: trace id and span count. -/
+abbrev PBlock := Nat × Nat
+
+/-- `partIter` state. `pbms`: remaining primary blocks (first id is the first block's id). -/
+structure PIter where
+  tids : List Nat
+  tidIdx : Nat
+  cur : Nat
+  pbms : List (List PBlock)
+  bms : List PBlock
+  eof : Bool := false
+  panicked : Bool := false
+
+def PIter.nextTid (s : PIter) : Bool × PIter :=
+  match s.tids[s.tidIdx]? with
+  | none => (false, { s with eof := true })
+  | some t => (true, { s with cur := t, tidIdx := s.tidIdx + 1 })
+
+/-- `searchTargetTraceID` / `searchTargetTID`. -/
+def PIter.searchTarget (s : PIter) (t : Nat) : Bool × PIter :=
+  if s.cur ≥ t then (true, s)
+  else
+    let (ok, s) := s.nextTid
+    if !ok then (false, s)
+    else if s.cur ≥ t then (true, s)
+    else
+      let rest := s.tids.drop s.tidIdx
+      let idx := s.tidIdx + sortSearch rest (fun x => decide (t ≤ x))
+      match s.tids[idx]? with
+      | none => (false, { s with tidIdx := s.tids.length, eof := true })
+      | some c => (true, { s with cur := c, tidIdx := idx + 1 })
+
+/-- `loadNextBlockMetadata`. -/
+def PIter.loadNext (s : PIter) : Bool × PIter :=
+  match s.pbms with
+  | [] => (false, { s with eof := true })
+  | pb0 :: _ =>
+    let first := fun (pb : List PBlock) => match pb with | b :: _ => b.1 | [] => 0
+    let (ok, s) := s.searchTarget (first pb0)
+    if !ok then (false, s)
+    else match searchPBM (s.pbms.map first) s.cur with
+      | none => (false, { s with panicked := true })
+      | some k =>
+        match s.pbms.drop k with
+        | [] => (false, { s with panicked := true })
+        | pbm :: rest =>
+          if s.cur < first pbm then (false, { s with panicked := true })
+          else (true, { s with pbms := rest, bms := pbm.filter fun b => s.tids.contains b.1 })
+
+/-- `findBlock`: `(found, state)`; on success `cur` is the found block's trace id and the block is
+    returned. -/
+def PIter.findBlock (fuel : Nat) (s : PIter) (bhs : List PBlock) : Option PBlock × PIter :=
+  match fuel with
+  | 0 => (none, { s with bms := [] })
+  | fuel + 1 =>
+    match bhs with
+    | [] => (none, { s with bms := [] })
+    | b0 :: _ =>
+      let n := if b0.1 < s.cur then sortSearch bhs (fun b => decide (s.cur ≤ b.1)) else 0
+      match bhs.drop n with
+      | [] => (none, { s with bms := [] })
+      | bm :: rest =>
+        if bm.1 ≠ s.cur then
+          let (ok, s') := s.searchTarget bm.1
+          if !ok then (none, s') else PIter.findBlock fuel s' (bm :: rest)
+        else (some bm, { s with bms := rest })
+
+/-- `nextBlock` until exhaustion: every block the iterator yields, in order. -/
+def PIter.run (fuel : Nat) (s : PIter) (acc : List PBlock) : List PBlock × PIter :=
+  match fuel with
+  | 0 => (acc, s)
+  | fuel + 1 =>
+    if s.eof || s.panicked then (acc, s)
+    else if s.bms.isEmpty then
+      let (ok, s) := s.loadNext
+      if !ok then (acc, s) else
+      match PIter.findBlock (s.bms.length + s.tids.length + 2) s s.bms with
+      | (some b, s) => PIter.run fuel s (acc ++ [b])
+      | (none, s) => PIter.run fuel s acc
+    else
+      match PIter.findBlock (s.bms.length + s.tids.length + 2) s s.bms with
+      | (some b, s) => PIter.run fuel s (acc ++ [b])
+      | (none, s) => PIter.run fuel s acc
+
+/-- `partIter.init` + `nextBlock` loop over a part given as its primary blocks, for the wanted ids. -/
+def readPart (pbms : List (List PBlock)) (tids : List Nat) : List PBlock × Bool :=
+  let s0 : PIter := { tids := tids, tidIdx := 0, cur := 0, pbms := pbms, bms := [] }
+  let (_, s1) := s0.nextTid
+  let fuel := 4 * ((pbms.map List.length).sum + pbms.length + tids.length) + 8
+  let (out, s) := PIter.run fuel s1 []
+  (out, s.panicked)
+
 /-! ## 6. observations used by the property statements -/
 
 /-- every span physically stored for `tid` (what a complete query by trace id must return). -/
